@@ -41,7 +41,7 @@ def main():
         meta['suite_with_patch'] = out.strip().splitlines()[-1] if out.strip() else ''
         suite_ok = ' passed' in meta['suite_with_patch'] and 'failed' not in meta['suite_with_patch']
         demo = open(os.path.join(src, 'demo.py')).read()
-        wt = re.search(r'/tmp/wt[23]?_C\d+', demo) or re.search(r'/repo(?=[\'"/])', demo)
+        wt = re.search(r'/tmp/wt[234]?_C\d+', demo) or re.search(r'/repo(?=[\'"/])', demo)
         res = {}
         for label, root in (('with_patch', patched), ('without_patch', pristine)):
             d2 = demo.replace(wt.group(0), root) if wt else demo
